@@ -11,6 +11,14 @@ import z3
 from .sym import SymInt, SymBool, EngineError, branch, mk, mks, And, Or, Not, _z, cur, PathAbort
 
 
+def _ident(x):
+    """abstract objects are stored in symbolic sequences through their ghost identity field `_id`"""
+    f = getattr(x, "fields", None)
+    if f is not None and "_id" in f:
+        return f["_id"]
+    return x
+
+
 class SymRange:
     def __init__(self, *a):
         if len(a) == 1:
@@ -136,12 +144,12 @@ class SeqList:
 
     def method(self, interp, name, args, kwargs):
         if name == "append":
-            self.seq = z3.Concat(self.seq, z3.Unit(_z(args[0])))
+            self.seq = z3.Concat(self.seq, z3.Unit(_z(_ident(args[0]))))
             return None
         if name == "extend":
             a = args[0]
             if not isinstance(a, SeqList):
-                a = SeqList.of(list(interp.iterate(a)))
+                a = SeqList.of([_ident(x) for x in interp.iterate(a)])
             self.seq = z3.Concat(self.seq, a.seq)
             return None
         raise EngineError("SeqList.%s" % name)
